@@ -311,6 +311,7 @@ def _components(mol):
     return out
 
 
+REVALIDATING_OPS = {'addBond', 'delBond', 'delAtom', 'exitOk', 'substructure', 'fixStereo'}
 NEUTRAL_OPS = {'read', 'fixStereo', 'fixStructure', 'calcLabels', 'flush', 'enter', 'exitOk', 'setXY', 'setMeta', 'copy',
                'substructure', 'union', 'split'}
 
@@ -958,6 +959,28 @@ def neutral_histories(smi):
     return [rd + h + rd for h in out]
 
 
+ARM_SEEDS = ['O[C@H](CCC)CC', 'CC[C@H](N)CCC', 'CC/C=C(/C)CCC', 'OC[C@H](F)CCO', 'C[C@H](CC)CCC=C', 'CC[C@@](C)(O)CCC']
+
+
+def one_step_edit_histories(smi):
+    """every ring closure, every chain extension, every bond / atom deletion as a single public edit (outside and inside
+    a block): edits far from a label can make two arms of a centre equal, edits next to it can remove a substituent."""
+    m = fresh_seed(smi)
+    ids = list(m._atoms)
+    new = max(ids) + 1
+    out = []
+    for x in ids:
+        for y in ids:
+            if x < y and y not in m._bonds[x]:
+                out.append([['addBond', 0, x, y, 1, 0]])
+        out.append([['addAtom', 0, 6, -1, 0], ['addBond', 0, x, new, 1, 0]])
+        out.append([['enter', 0], ['addAtom', 0, 6, -1, 0], ['addBond', 0, new, x, 1, 0], ['exitOk', 0]])
+        out.append([['delAtom', 0, x, 0]])
+    for x, y, _ in m.bonds():
+        out.append([['delBond', 0, x, y, 0]])
+    return out
+
+
 def txn_multi_edit_histories(smi):
     """several structural edits in ONE successful block (the pending-change set already exists for the later ones)."""
     m = fresh_seed(smi)
@@ -1094,13 +1117,20 @@ def correspond(ctx):
         except Exception:
             continue
         oracle_cases += [(smi, h) for h in hs]
+    for smi in ARM_SEEDS[:3 if ctx.quick else 6]:
+        oracle_cases += [(smi, h) for h in one_step_edit_histories(smi)]
+    rdk = [['read', 0, k] for k in CORE_READS + ['rings_count', 'atoms_rings_sizes']]
+    for smi in ANY_SEEDS + ['c1ccccc1O', 'CC(=O)[O-].[NH4+]']:
+        for bulk in BULK_OPS:
+            oracle_cases.append((smi, rdk + [[bulk, 0]]))
+    oracle_cases = oracle_cases[-(len(ARM_SEEDS) * 80 + 200):] + oracle_cases[:-(len(ARM_SEEDS) * 80 + 200)] if False else oracle_cases
     for i in range(40 if ctx.quick else 600):
-        smi = ctx.rng.choice(DEPENDENT_STEREO_SEEDS + STEREO_SEEDS + ANY_SEEDS)
+        smi = ctx.rng.choice(DEPENDENT_STEREO_SEEDS + STEREO_SEEDS + ANY_SEEDS + ARM_SEEDS)
         oracle_cases.append((smi, gen_sequence(ctx.rng, fresh_seed(smi), ctx.rng.randint(3, 15), allow_skip=False)))
     from ..core import load_findings
     seen_sig = {f['signature'] for f in load_findings('C13') if f['status'] == 'known'}   # reported by their standing probes
     for smi, h in oracle_cases:
-        if time.time() - t1 > (25 if ctx.quick else 240):
+        if time.time() - t1 > (40 if ctx.quick else 300):
             break
         try:
             r = oracle(smi, h)
@@ -1184,6 +1214,7 @@ def oracle(smi, ops):
     txn_touched, txn_stereo = {}, {}
     stereo_unsettled = set()
     attr_in_txn, edit_in_txn = {}, {}
+    fix_after_attr, edit_after_fix = {}, {}   # attr write < public fix_structure() < structural edit, inside one block
     for i, op in enumerate(ops):
         name, o = op[0], op[1]
         if o >= len(objs):
@@ -1203,12 +1234,17 @@ def oracle(smi, ops):
         if name == 'enter':
             enter_state[o] = (wire.mol_to_line(objs[o]), observe(objs[o]))
             attr_in_txn[o] = edit_in_txn[o] = False
+            fix_after_attr[o] = edit_after_fix[o] = False
         if name in ('setCharge', 'setRadical'):
             if o not in enter_state:
                 return None  # outside a transaction: caller's responsibility, out of the property's domain
             attr_in_txn[o] = True
         if name in ('addAtom', 'addBond', 'delAtom', 'delBond') and o in enter_state:
             edit_in_txn[o] = True
+            if fix_after_attr.get(o):
+                edit_after_fix[o] = True
+        if name == 'fixStructure' and o in enter_state and op[2] and attr_in_txn.get(o):
+            fix_after_attr[o] = True
         if name in ('addAtom', 'addBond', 'delAtom', 'delBond') and len(op) > 2 and op[-1] == 1:
             return None  # _skip_calculation is private API
         if name in ('calcLabels', 'flush', 'fixStructure') and False:
@@ -1279,6 +1315,24 @@ def oracle(smi, ops):
         if name == 'exitExc':
             txn_touched.pop(o, None)
             txn_stereo.pop(o, None)
+        # after an operation that must re-validate stereo, the labels are exactly those that survive a validation of an
+        # independently rebuilt molecule (same atoms, bonds, neighbour order, labels carried over): no label is left on an
+        # atom / bond that stopped being stereogenic, whatever the operation decided about running the validation
+        if exc is None and name in REVALIDATING_OPS and not (name == 'addBond' and op[4] == 8):
+            tgt_i = created if (name == 'substructure' and created is not None) else o
+            t = objs[tgt_i]
+            if quiescent(t) and symmetric(t) and tgt_i not in stereo_unsettled and tgt_i not in flags.h_copied:
+                am, bm = stereo_marks(t)
+                if am or bm:
+                    try:
+                        ref = rebuild_exact(t)
+                        ref.fix_stereo()
+                        want = stereo_marks(ref)
+                    except Exception:
+                        want = None
+                    if want is not None and want != (am, bm):
+                        return (f'C13/stale-stereo-label/{name}',
+                                f'after op {i} {op}: stereo labels {(am, bm)} but validating an independently rebuilt molecule leaves {want}')
         if name == 'exitExc' and exc is None and o in enter_state:
             w0, ob0 = enter_state.pop(o)
             ob1 = observe(objs[o])
@@ -1296,7 +1350,11 @@ def oracle(smi, ops):
             if st is None:
                 continue
             stale, lab, hst, _ = st
-            ctxs = 'attr-write+edit-in-txn' if (name == 'exitOk' and j == o and attr_in_txn.get(o) and edit_in_txn.get(o)) else name
+            ctxs = name
+            if name == 'exitOk' and j == o and attr_in_txn.get(o) and edit_in_txn.get(o):
+                # mechanism: a public fix_structure() between the attribute write and a later edit resets the pending set
+                # and recomputes the hydrogens for the intermediate attribute value; the exit only compares with the snapshot
+                ctxs = 'attr-write+public-fix_structure+edit-in-txn' if edit_after_fix.get(o) else 'attr-write+edit-in-txn'
             if stale:
                 return (f'C13/stale-cache/{ctxs}', f'after op {i} {op}: memoised {stale[:3]} of object {j} differ from a rebuilt molecule')
             if lab:
@@ -1368,13 +1426,16 @@ def search(ctx):
         for ops in cases:
             try_case(smi, ops)
             try_case(smi, [['read', 0, '__cached_method___str__']] + ops + [['read', len(ops), '__cached_method___str__']])
+    for smi in ARM_SEEDS:
+        for h in one_step_edit_histories(smi):
+            try_case(smi, h)
     for smi in ALPHABET_SEEDS + STEREO_SEEDS[:4] + ANY_SEEDS:
         for h in rollback_histories(smi) + neutral_histories(smi):
             if time.time() - t0 > budget * 0.8:
                 break
             try_case(smi, h)
     bulk_seeds = ['c1ccccc1O', 'c1ccncc1C', 'C1=CC=CC=C1N', 'CC(=O)[O-].[NH4+]', 'c1ccc2ccccc2c1', '[13CH3]C(=O)O[Na]',
-                  'C[N+](=O)[O-]', 'OC1CC1[Mg]Cl', '[H]C([H])([H])O', 'C[n+]1ccccc1.[Cl-]']
+                  'C[N+](=O)[O-]', 'OC1CC1[Mg]Cl', '[H]C([H])([H])O', 'C[n+]1ccccc1.[Cl-]'] + ANY_SEEDS
     for smi in bulk_seeds:       # bulk edits (most keep ring / component caches): read-bulk-read, also on copies
         for bulk in BULK_OPS:
             for pre in ([], [['copy', 0, 1, 1]]):
@@ -1421,6 +1482,8 @@ FINDING_TRACES = [
     {'seed': 'CCO', 'ops': [['copy', 0, 0, 0], ['setXY', 1, 1, 5, 3]]},
     {'seed': 'CCO', 'ops': [['enter', 0], ['addAtom', 0, 6, 10, 0], ['exitExc', 0], ['delBond', 0, 1, 2, 0]]},
     {'seed': 'CCO.CC', 'ops': [['enter', 0], ['setCharge', 0, 3, -1], ['addBond', 0, 4, 1, 1, 0], ['exitOk', 0]]},
+    {'seed': 'C1CC1C1CC1', 'ops': [['enter', 0], ['setRadical', 0, 6, 1], ['fixStructure', 0, 1], ['setRadical', 0, 6, 0],
+                                   ['addBond', 0, 5, 1, 1, 0], ['exitOk', 0]]},
     {'seed': 'C[Mg]Br', 'ops': [['addBond', 0, 1, 3, 8, 0], ['copy', 0, 0, 0]]},
     {'seed': 'C[Mg]Br', 'ops': [['addBond', 0, 1, 3, 8, 0], ['enter', 0]]},
     {'seed': 'CCO', 'ops': [['enter', 0], ['addAtom', 0, 6, 10, 0], ['delAtom', 0, 10, 0], ['exitOk', 0], ['addAtom', 0, 7, -1, 0],
